@@ -68,7 +68,7 @@ def run(tier, seed):
     rnd = random.Random(seed * 71 + 20)
     import gen_prog
     import refrun
-    progs, srcs = refrun.gen_programs(seed + 201, 400 if tier == "quick" else 3000, 5, err_rate=0.0, features={"ext": True})
+    progs, srcs = refrun.gen_programs(seed + 201, 400 if tier == "quick" else 3000, 5, err_rate=0.0, features={"ext": True, "ext2": "half"})
     progs = [p for p in progs if not rf.has_kind(p, {"set", "upd"})]
     for p in progs:
         if p["id"] % 3 == 0:
